@@ -67,7 +67,15 @@ Proof.
   intros Hper Hmp Hk Hbs H. pose proof (clamp_limit bs mp tot per bs' Hper Hmp H).
   assert (k * (bs' - 1) <= per * (bs' - 1)) by (apply Z.mul_le_mono_nonneg_r; lia). lia.
 Qed.
-Lemma clamp_limit_binds_refuted :
+(* since e06ceea the divisor is max(elements, bound parameters), so the limit holds for every k *)
+Lemma clamp_limit_binds_fixed bs mp tot elems k bs' : 1 <= elems -> mp <> 0 -> 0 <= k -> 1 <= bs' ->
+  clamp bs mp tot (params_per_batch_expr elems k) = Ok bs' -> (tot - k) + bs' * k <= mp.
+Proof.
+  intros He Hmp Hk Hbs H. unfold params_per_batch_expr in H.
+  apply (clamp_limit_binds bs mp tot (Z.max elems k) k bs'); try assumption; lia.
+Qed.
+(* what the old divisor (the number of elements alone) did *)
+Lemma clamp_limit_elements_only_refuted :
   exists bs mp tot per k bs', 1 <= per /\ 1 <= bs /\ tot <= mp /\ per <= k /\
     clamp bs mp tot per = Ok bs' /\ 1 <= bs' /\ (tot - k) + bs' * k > mp.
 Proof. exists 20000, 32700, 3, 1, 3, 20000. repeat split; try lia; reflexivity. Qed.
@@ -213,7 +221,7 @@ Qed.
 
 (* precondition under which the clamp cannot push the size below 1 *)
 Definition clamp_pre (c : config) : Prop :=
-  c_max_params c = 0 \/ (1 <= c_params_per_batch c /\ c_total_params c <= c_max_params c).
+  c_max_params c = 0 \/ (1 <= c_per_batch c /\ c_total_params c <= c_max_params c).
 
 Definition batch_ok (c : config) (total : Z) (b : batch P) : Prop :=
   b_items b <> [] /\ b_cbs b = Z.of_nat (length (b_items b)) /\ b_cbs b <= Z.max 1 (c_batch_size c) /\
@@ -239,7 +247,7 @@ Proof.
     + eapply Forall_impl; [|apply row_batches_singletons]. cbn beta. intros b (p & H1 & H2 & H3 & H4 & H5).
       unfold batch_ok. rewrite H1, H2, H3, H4, H5, Hm. cbn. repeat split; try congruence; lia.
     + intros _. eapply Forall_impl; [|apply row_batches_singletons]. cbn beta. intros b (p & H1 & _). rewrite H1. reflexivity.
-  - assert (Hcl : exists bs', clamp (c_batch_size c) (c_max_params c) (c_total_params c) (c_params_per_batch c) = Ok bs'
+  - assert (Hcl : exists bs', clamp (c_batch_size c) (c_max_params c) (c_total_params c) (c_per_batch c) = Ok bs'
                  /\ 1 <= bs' <= c_batch_size c).
     { destruct Hpre as [H0|[H1 H2]].
       - rewrite H0, clamp_off. exists (c_batch_size c). split; [reflexivity|lia].
